@@ -2,9 +2,12 @@ package props
 
 import (
 	"fmt"
+	"os"
+	"path/filepath"
 	"sort"
 	"strconv"
 	"strings"
+	"time"
 
 	"verifharness/internal/fw"
 	"verifharness/internal/gen"
@@ -233,6 +236,33 @@ func runC04(c *fw.Ctx, idx int) fw.Result {
 	}
 	if idx%20 == 6 {
 		ac.binVariants(c, &res, idx, -1, -1, false, 0, true, threads, outA)
+	}
+	if idx%10 == 3 && form == "fasta" && ac.refID != "" && c.Bin != "" {
+		// the alignment piped in with the named reference NOT at the front of the stream: the
+		// command may refuse this, or answer as it does for the file; it may not present mutations
+		// relative to some other record as those relative to --reference
+		first := strings.Fields(strings.TrimPrefix(strings.SplitN(ac.msaTxt, "\n", 2)[0], ">"))
+		if len(first) > 0 && first[0] != ac.refID {
+			d := filepath.Join(c.Tmp, fmt.Sprintf("c04-stdin-%d", idx))
+			os.MkdirAll(d, 0755)
+			ap := filepath.Join(d, "anno."+format)
+			os.WriteFile(ap, []byte(ac.annoTxt), 0644)
+			sargv := []string{"variants", "-a", ap, "-r", ac.refID, "--append-snps", "-t", fmt.Sprint(threads)}
+			br := fw.RunBin(c.Bin, sargv, []byte(ac.msaTxt), nil, d, 40*time.Second)
+			os.RemoveAll(d)
+			res.Evals++
+			res.Count("binary_stdin_runs_with_reference_not_first", 1)
+			if br.TimedOut {
+				binHang(&res, br, "variants (stdin, reference not first)", files, sargv)
+			} else if br.Exit == 0 {
+				res.Count("binary_stdin_runs_with_reference_not_first_accepted", 1)
+				if string(br.Stdout) != outA {
+					f := cloneFiles(files)
+					f["binary_stdin_output.csv"] = string(br.Stdout)
+					res.Fail(class+":stdin-reference-not-first", "the alignment was piped in with --reference naming a record that is not the first; the command exited 0 with mutations that are not those relative to the named reference: "+firstDiff(outA, string(br.Stdout)), f, sargv)
+				}
+			}
+		}
 	}
 	namesA, mutsA, okA := model.ParseVariantsCSV(outA)
 	namesB, mutsB, okB := model.ParseVariantsCSV(outB)
@@ -473,6 +503,16 @@ func (ac *annoCase) binVariants(c *fw.Ctx, res *fw.Result, idx int, start, end i
 		files["ref.fasta"] = ac.refTxt
 	}
 	useStdin := ac.form == "sam" && idx%2 == 0
+	stdinTxt := ac.sf.Text
+	if ac.form == "fasta" && fw.Mix(uint64(idx)+515)%2 == 0 {
+		// the alignment piped in: with --reference the reference has to lead the stream, without it
+		// (reference from the annotation) every record is a query
+		first := strings.Fields(strings.TrimPrefix(strings.SplitN(ac.msaTxt, "\n", 2)[0], ">"))
+		if ac.refID == "" || (len(first) > 0 && first[0] == ac.refID) {
+			useStdin, stdinTxt = true, ac.msaTxt
+			res.Count("binary_runs_with_the_alignment_on_stdin", 1)
+		}
+	}
 	// a GenBank annotation may also be given through the older --genbank flag, which takes the
 	// format from the flag and not from the file's name
 	annoFlag, annoName := "-a", "anno."+ac.format
@@ -485,7 +525,12 @@ func (ac *annoCase) binVariants(c *fw.Ctx, res *fw.Result, idx int, start, end i
 	binSample(c, res, idx, "variants-"+ac.form, files, func(p func(string) string) []string {
 		var a []string
 		if ac.form == "fasta" {
-			a = []string{"variants", "--msa", p("msa.fasta"), annoFlag, p(annoName)}
+			a = []string{"variants", annoFlag, p(annoName)}
+			if !useStdin {
+				a = append(a, "--msa", p("msa.fasta"))
+			} else if fw.Mix(uint64(idx)+516)%2 == 0 {
+				a = append(a, "--msa", "stdin")
+			}
 			if ac.refID != "" {
 				a = append(a, "-r", ac.refID)
 			}
@@ -512,7 +557,7 @@ func (ac *annoCase) binVariants(c *fw.Ctx, res *fw.Result, idx int, start, end i
 			a = append(a, "--append-snps")
 		}
 		return a
-	}, stdinOrNil(useStdin, ac.sf.Text), map[bool]string{true: "", false: "-o"}[idx%3 == 0], want)
+	}, stdinOrNil(useStdin, stdinTxt), map[bool]string{true: "", false: "-o"}[idx%3 == 0], want)
 }
 
 func stdinOrNil(use bool, s string) []byte {
